@@ -879,7 +879,7 @@ def run(ctx: Ctx) -> int:
         acc = tv["verdict"].get(tid, False)
         sc = by_id.get(tid)
         scen = ({k: sc[k] for k in ("flavour", "keys", "w", "nk", "l", "crashes", "offsets", "points")} if sc
-                else {"inproc": True, "crashes": [], "l": 2, **{k: by_pid[tid][k] for k in ("flavour", "keys", "nk", "ops", "modes", "steps", "cache_obj", "clear_how")}}
+                else {"inproc": True, "crashes": [], "l": 2, **{k: by_pid[tid].get(k) for k in ("flavour", "keys", "nk", "ops", "modes", "steps", "cache_obj", "clear_how")}}
                 if tid in by_pid else {"clean": tid, "crashes": [], "l": 2})
         if tid in failed:
             if acc:
